@@ -188,6 +188,30 @@ func checkReflectiveMarshalers(p *Prog, r *Report) {
 			continue
 		}
 		calls := callInstrs(fn, "encoding/json.Marshal")
+		// the Marshal call may sit in a small helper that MarshalJSON merely passes through
+		bind := map[ssa.Value]ssa.Value{}
+		if len(calls) == 0 {
+			for _, b := range fn.Blocks {
+				for _, in := range b.Instrs {
+					c, isC := in.(*ssa.Call)
+					if !isC {
+						continue
+					}
+					h := StaticCallee(&c.Call)
+					if h == nil || h.Pkg != fn.Pkg || h == fn || !isPassThroughOf(fn, h, nil) {
+						continue
+					}
+					if hc := callInstrs(h, "encoding/json.Marshal"); len(hc) > 0 && isPassThroughOfCall(h, hc[0]) {
+						calls = hc
+						for i, prm := range h.Params {
+							if i < len(c.Call.Args) {
+								bind[prm] = c.Call.Args[i]
+							}
+						}
+					}
+				}
+			}
+		}
 		if len(calls) == 0 {
 			continue
 		}
@@ -238,6 +262,9 @@ func checkReflectiveMarshalers(p *Prog, r *Report) {
 					if u, isU := v.(*ssa.UnOp); isU && u.Op == token.MUL {
 						v = u.X
 					}
+					if b, bound := bind[v]; bound {
+						v = b
+					}
 					if v != ssa.Value(fn.Params[0]) {
 						ok, why = false, "the marshalled value is not the receiver"
 					}
@@ -245,7 +272,7 @@ func checkReflectiveMarshalers(p *Prog, r *Report) {
 			}
 			// result returned as is
 			for _, s := range Paths(fn).Segs {
-				if s.Returns() {
+				if s.Returns() && len(bind) == 0 { // through a helper: both pass-through links were established above
 					ret := s.Exit.(*ssa.Return)
 					if ex, isEx := s.Resolve(ret.Results[0]).(*ssa.Extract); !isEx || ex.Tuple != ssa.Value(calls[0]) {
 						ok, why = false, "the marshalled bytes are not returned unchanged"
@@ -939,4 +966,25 @@ func checkJSONWiring(p *Prog, r *Report) {
 			r.Check(fr.Field != nil && fr.Field.Name() == "json", "C14.R6", "flag --json/"+fr.Field.Name()+"@"+p.Pos(fr.Call.Pos()), p.Pos(fr.Call.Pos()), "--json is bound to the json options field the logger builders test", "")
 		}
 	}
+}
+
+// isPassThroughOfCall: every return of h hands back the results of call c unchanged.
+func isPassThroughOfCall(h *ssa.Function, c *ssa.Call) bool {
+	if len(LoopHeaders(h)) > 0 {
+		return false
+	}
+	n := 0
+	for _, s := range Paths(h).Segs {
+		if !s.Returns() {
+			continue
+		}
+		n++
+		for i, rv := range s.Exit.(*ssa.Return).Results {
+			ex, ok := s.Resolve(rv).(*ssa.Extract)
+			if !ok || ex.Index != i || ex.Tuple != ssa.Value(c) {
+				return false
+			}
+		}
+	}
+	return n > 0
 }
